@@ -53,7 +53,7 @@ def class_specs(rng: random.Random, tier: str) -> Tuple[List[dict], Dict[str, in
     add("CM_NEST", "data", [["hd", ["Int16"]], ["mid", ["Struct", 1]], ["mids", ["StructArray", 1, 2]],
                             ["tl", ["String", 4]]])
     # random definitions (depth <= 2), half of them through the real compiler
-    nrand = 6 if tier == "quick" else 40
+    nrand = 10 if tier == "quick" else 40
     kinds = INT_KINDS + FLOAT_KINDS + ["Byte", "Char", "String", "ByteArray", "IntArray", "FloatArray"]
     for j in range(nrand):
         compiled = (j % 2 == 0)
@@ -163,7 +163,7 @@ def gen_cases(L: Layouts, own: List[int], imported: List[int], hdr_ci: int, rng:
     def add(ci, sets, tag, hdr=None):
         cases.append(dict(cls=ci, sets=sets, _tag=tag, hdr=hdr))
 
-    nhist = 12 if tier == "quick" else 80
+    nhist = 25 if tier == "quick" else 80
     for ci in own + imported:
         lv = leaves(ci)
         if not lv:
@@ -501,7 +501,7 @@ def run(chk: Check):
             chk.broken_obligation("correspondence Model/Codec.v (Message.from_json) vs implementation differs",
                                   f"class={L.specs[c['cls']]['name']} tag={c['_tag']} msg_rt={r.get('msg_rt')}")
     nbad = len([b for b in bad if b >= 0]) + len([b for b in mbad if b >= 0])
-    chk.cov["evaluations"] = len(cases)
+    chk.cov["evaluations"] = len(cases) + len(msg_cases)
     chk.cov["traces_validated_against_impl"] = (len(coq_cases) + len(msg_cases) - nbad) if gen_ok else 0
     chk.cov["distinct_nontrivial"] = len(nontrivial)
     chk.cov["rule"] = ("one case = a class (own: all leaf kinds, nested structs, struct arrays, random definitions, half of "
